@@ -125,6 +125,15 @@ PROP_FAMILIES = {
 
 
 def plan(pid, tier, seed):
+    if pid == 'C19':
+        builds = ['all-dev', 'nofin-rel'] if tier == 'quick' else ['all-dev', 'all-rel', 'nofin-rel', 'default-dev']
+        conf = []
+        for b in builds:
+            if tier == 'thorough' or b == 'all-dev':
+                conf.append({'kind': 'threads', 'variant': b, 'params': {}, 'family': 't'})
+            for par in ([4, 16] if tier == 'quick' else [2, 4, 8, 16]):
+                conf.append(_random(b, seed + 5000 + par, par * (2 if tier == 'quick' else 6), 300, faultp=0.005, ns=2, np=0, nw=1, maxobjs=8, par=par, family='t'))
+        return {'engines': [], 'conformance': conf}
     if pid in GRAPH_PROPS:
         engines = PROP_ENGINES[pid]
         if tier == 'thorough':
@@ -143,12 +152,12 @@ def plan(pid, tier, seed):
     raise SystemExit('no plan for property %s' % pid)
 
 
-LEVEL = {p: 'model_checking' for p in GRAPH_PROPS}
+LEVEL = {p: 'model_checking' for p in GRAPH_PROPS + ['C19']}
 
 
 def evidence(pid, tier, seed, plan_, engines, confs, nviol, nknown, wall):
-    states = sum(e.get('states', 0) for e in engines)
-    transitions = sum(e.get('transitions', 0) for e in engines)
+    states = sum(e.get('states', 0) for e in engines) + sum(c.get('states', 0) for c in confs)
+    transitions = sum(e.get('transitions', 0) for e in engines) + sum(c.get('transitions', 0) for c in confs)
     runs = sum(c.get('runs', 0) for c in confs)
     events = sum(c.get('events', 0) for c in confs)
     samples = []
@@ -200,4 +209,14 @@ for _p in GRAPH_PROPS:
         'note': 'Trusted: TLC, the harness account of its own handles, the tracking allocator; bounds: small-scope exhaustive model, '
                 'finite random histories (seeded by VERIF_SEED).',
     }
+CLAIMED['C19'] = {
+    'engine': 'tlc-spec+ccverif',
+    'technique': 'TLA+ model checking of thread schedules (TLC) + replay on real threads + per-thread trace validation',
+    'text': 'spec/Threads.tla enumerates every interleaving of small per-thread programs, both thread-local destruction orders and both exit '
+            'kinds (invariant: a thread\'s counters depend on its own prefix only); real threads replay each schedule with a baton and free-running '
+            'threads (2..16) run random programs concurrently; every thread\'s trace, teardown included, is validated against spec/Contract.tla with exact counters.',
+    'design_ref': 'DESIGN.md section 8 C19',
+    'note': 'Cc is !Send, so no legal program shares objects between threads: independence is structural in the specification and the assurance '
+            'comes from the conformance runs. Trusted: TLC, harness, tracking allocator.',
+}
 NOT_APPLICABLE = {}
